@@ -1000,3 +1000,91 @@ def reprt_lines(rng, count):
 REPRT_CODES = {1: "malformed record", 390: "matrix construction failed", 391: "recognition returned an error",
                392: "the constructed matrix is not recognized as graphic / network",
                393: "construction from the recognized graph failed", 394: "matrix -> graph -> matrix is not the identity"}
+
+
+def threeconn_graph(rng):
+    """edge list of a 3-connected graph: Wagner graph V8, V10, Petersen, K5, K6, K3,3..K4,4, cube (+ diagonals), wheels,
+    prisms, or one of these with a few random extra edges"""
+    k = rng.below(9)
+    if k == 0:
+        n = 8 if rng.below(2) else 10
+        E = [(i, (i + 1) % n) for i in range(n)] + [(i, i + n // 2) for i in range(n // 2)]
+    elif k == 1:
+        n = 10
+        E = [(i, (i + 1) % 5) for i in range(5)] + [(i, i + 5) for i in range(5)] + [(5 + i, 5 + (i + 2) % 5) for i in range(5)]
+    elif k == 2:
+        n = 5 + rng.below(2)
+        E = [(i, j) for i in range(n) for j in range(i + 1, n)]
+    elif k == 3:
+        a, b = 3 + rng.below(2), 3 + rng.below(3)
+        n = a + b
+        E = [(i, a + j) for i in range(a) for j in range(b)]
+    elif k == 4:
+        n = 8
+        E = [(i, i ^ 1) for i in range(8) if i < i ^ 1] + [(i, i ^ 2) for i in range(8) if i < i ^ 2] + \
+            [(i, i ^ 4) for i in range(8) if i < i ^ 4] + [(0, 7), (1, 6)][:rng.below(3)]
+    elif k == 5:
+        n = 5 + rng.below(6)
+        E = [(0, i) for i in range(1, n)] + [(i, i % (n - 1) + 1) for i in range(1, n)]
+    elif k == 6:
+        h = 3 + rng.below(4)
+        n = 2 * h
+        E = [(i, (i + 1) % h) for i in range(h)] + [(h + i, h + (i + 1) % h) for i in range(h)] + [(i, h + i) for i in range(h)]
+    else:
+        n = 6 + rng.below(5)
+        E = [(i, (i + 1) % n) for i in range(n)] + [(i, (i + 2 + rng.below(n - 3)) % n) for i in range(n)]
+    E = list(dict.fromkeys((min(u, v), max(u, v)) for (u, v) in E if u != v))
+    for _ in range(rng.below(3)):
+        u, v = rng.below(n), rng.below(n)
+        if u != v and (min(u, v), max(u, v)) not in E:
+            E.append((min(u, v), max(u, v)))
+    return n, E
+
+
+def param_independence_lines(rng, count):
+    """`rel` cases (kind 1: permutation) whose FIRST matrix is tested with non-default decomposition parameters (strategy
+    code 2000+: direct graphicness off / series-parallel off / planarity check on / one of the five strategies) and whose
+    second matrix - a row/column permutation of it - with the defaults: graphic and cographic matrices of 3-connected
+    graphs with random spanning trees and line orders, and presentations of regular matroids that need 3-sums"""
+    import vlib
+    out = []
+    deep = deep_binary_seeds(rng, 12, 300)
+    for i in range(count):
+        if i % 5 == 4:
+            M = [r[:] for r in rng.choice(deep)]
+        else:
+            n, E = threeconn_graph(rng)
+            M, _w = graph_instance(rng, n, len(E), False, loops=False, edges=E)
+            if not M or not M[0]:
+                continue
+            if rng.below(2):
+                M = [list(r) for r in zip(*M)]
+        m, nn = len(M), len(M[0])
+        rp = rng.shuffle(list(range(m)))
+        cp = rng.shuffle(list(range(nn)))
+        N = [[M[a][b] for b in cp] for a in rp]
+        x = rng.choice([1, 1, 1, 3, 5, 2, 4]) + 8 * rng.below(5)
+        out.append("%d 1 %d %s %d %s %s %s" % (2000 + x, m, " ".join(map(str, rp)), nn, " ".join(map(str, cp)),
+                                              vlib.mat_line(M, m, nn), vlib.mat_line(N)))
+    return out
+
+
+def r10_sign_scrambles(rng, count):
+    """ternary matrices whose support is one of the two R10 representations (alone, or as a block / 2-sum part of a
+    larger matrix) with random signs - most of them not Camion-signed: the R10 recognition step must report them
+    irregular and leave the node's matrix alone"""
+    out = []
+    for i in range(count):
+        S = [[abs(x) for x in r] for r in (R10 if rng.below(2) else R10_CYC)]
+        M = [[(x * rng.choice([1, -1])) for x in r] for r in S]
+        M = permute(rng, M)
+        k = rng.below(4)
+        if k == 1:
+            M = block_diag(M, network_matrix(rng, 3 + rng.below(4), 3 + rng.below(4)))
+        elif k == 2:
+            B = network_matrix(rng, 4 + rng.below(4), 3 + rng.below(4))
+            M = two_sum(B, M, rng.below(len(B)), rng.below(5))
+        if k:
+            M = permute(rng, M)
+        out.append(M)
+    return out
